@@ -15,6 +15,7 @@ structure St where
   ms : List (String × List Match) := []
   cs : List (String × List CapEv) := []
   preds : List (Nat × TextPred) := []
+  wild : Bool := false
   cur : String := ""
   curM : Array Match := #[]
   curC : Array CapEv := #[]
@@ -36,7 +37,7 @@ def parseM (ws : List String) : Option Match :=
   let v := ws.map natOf
   match v with
   | id :: pat :: a :: b :: c :: d :: e :: f :: depth :: hp :: g :: h :: i :: j :: k :: l :: _n :: rest =>
-    some { id := id, pat := pat, root := mkRange [a, b, c, d, e, f], depth := depth, hasPar := hp == 1,
+    some { id := id, pat := pat, root := mkRange [a, b, c, d, e, f], depth := depth, hasPar := hp == 1, hasRoot := hp != 2,
            par := mkRange [g, h, i, j, k, l], caps := parseCaps rest #[] }
   | _ => none
 
@@ -78,6 +79,13 @@ def incOf (kind : String) (v : List Nat) : Option TSRange :=
   | "p", [_, _, sr, sc, er, ec] => some (setPointRange defaultRange ⟨sr, sc⟩ ⟨er, ec⟩)
   | _, _ => none
 
+/-- Does the query text contain a wildcard node with children or a top-level wildcard, `(_ …`?
+(the compiled pattern then starts at the wildcard's first child; used only to fingerprint reports) -/
+def wildRoot : List Nat → Bool
+  | 40 :: 95 :: 32 :: _ => true
+  | _ :: rest => wildRoot rest
+  | [] => false
+
 def verdict (ok : Bool) (why : String) : String := if ok then "ok" else "FAIL " ++ why
 
 def runChk (s : St) (ws : List String) : String :=
@@ -87,19 +95,22 @@ def runChk (s : St) (ws : List String) : String :=
     let inc := incOf kind (rest.map natOf)
     let ms := getM s m; let cs := getC s c
     let ok := judgeA ms cs inc
-    s!"{head} clause=a judge={verdict ok (explainA ms cs inc)} corr=- n1={ms.length} n2={cs.length} ranged={inc.isSome}"
+    s!"{head} clause=a judge={verdict ok (explainA ms cs inc)} corr=- n1={ms.length} n2={cs.length} ranged={inc.isSome} wild={s.wild}"
   | ["h", m, c] =>
     let ms := getM s m; let cs := getC s c
     let ok := judgeA ms cs none
-    s!"{head} clause=h judge={verdict ok (explainA ms cs none)} corr=- n1={ms.length} n2={cs.length}"
+    s!"{head} clause=h judge={verdict ok (explainA ms cs none)} corr=- n1={ms.length} n2={cs.length} wild={s.wild}"
   | "b" :: u :: r :: mode :: kind :: rest =>
     let v := rest.map natOf
     let rng := (incOf kind v).getD defaultRange
     let us := getM s u; let rs := getM s r
     let keep := if mode == "w" then keepWithin rng else keepIntersect rng
-    let ok := judgeB keep us rs
     let exp := us.filter keep
-    s!"{head} clause=b judge={verdict ok s!"range-{mode}{kind} expected={exp.length} got={rs.length}"} corr=- n1={us.length} n2={rs.length} mode={mode}{kind}"
+    if us.any (fun m => !m.hasRoot) then
+      s!"{head} clause=b judge=ok corr=- n1={us.length} n2={rs.length} mode={mode}{kind} skipped=rootless"
+    else
+    let ok := judgeB keep us rs
+    s!"{head} clause=b judge={verdict ok s!"range-{mode}{kind} expected={exp.length} got={rs.length}"} corr=- n1={us.length} n2={rs.length} mode={mode}{kind} wild={s.wild}"
   | ["c", a, b] =>
     if isMStream s a || isMStream s b then
       let x := getM s a; let y := getM s b
@@ -136,6 +147,7 @@ def step (s : St) (line : String) : IO St := do
   | ["case", id] => return { id := id }
   | ["text", h] => return { s with text := (unhexBytes h).toArray }
   | ["text"] => return { s with text := #[] }
+  | ["query", h] => return { s with wild := wildRoot (unhexBytes h) }
   | ["stream", n] => return { s with cur := n, curM := #[], curC := #[], inStream := true }
   | "m" :: ws => match parseM ws with
     | some m => return { s with curM := s.curM.push m }
